@@ -730,7 +730,7 @@ class GraphWorld:
                 return NONE
             if name in self.methods and ip.depth < ip.max_depth:
                 fn = self.methods[name]
-                env = bind_args(fn, [SelfV()] + list(args), kwargs, ip, node)
+                env = bind_args(fn, self_args(fn) + list(args), kwargs, ip, node)
                 ip.depth += 1
                 try:
                     return ip.call_function(fn, env)
@@ -796,6 +796,14 @@ class GraphWorld:
         if isinstance(obj, Opaque):
             return Opaque(obj.tag + "." + name + "()")
         raise Unsupported(node, "method %s of %r" % (name, obj))
+
+
+def self_args(fn):
+    """The implicit first argument of a method called through ``self``: none for a @staticmethod."""
+    for d in fn.decorator_list:
+        if isinstance(d, ast.Name) and d.id == "staticmethod":
+            return []
+    return [SelfV()]
 
 
 def bind_args(fn, pos, kwargs, ip, node):
